@@ -1,10 +1,25 @@
 import Orb.Proto
+import Orb.Core
+import Orb.SmartClip
+import Generated.Params
 
 /-! Driver for C20 (generic entry points: total, agree with typed functions, collections combine,
-    read-only arguments unchanged).  The judgement is the executable property on the
-    implementation's outcomes; the per-package models are exercised by their own properties. -/
+    read-only arguments unchanged).
+
+    The judgement is the executable property on the implementation's outcomes.  Everything that
+    DECIDES lives here, not in the harness: which entry points are read-only (`readOnly`), how the
+    generic function wraps the kind-specific function's raw result (`relate`: bound pre-test, nil for
+    an empty result, single-member unwrapping — the statements of `clip_geometry_agrees_typed`,
+    `smartclip_geometry_agrees_typed`, `simplify_agrees_typed` in OrbProofs/C20Models.lean), and how
+    a collection's result is rebuilt from its members' results (`combineOf` and the clauses below —
+    `clip_geometry_collection`, `smartclip_geometry_collection`, `simplify_collection`,
+    `planar_*_collection`, `bound_collection_union`, `wkb_collection`, `wkt_collection`,
+    `geojson_collection`).  The bound pre-test and the dimension of a value are computed HERE from
+    the case's input (Float twin of `Core.bound`, `SmartClip.dimensions`), never taken from the
+    harness.  No clause answers `skip` except for one stated input class (a malformed bound, see
+    `clipColl`). -/
 namespace Driver.C20
-open Orb Orb.Proto
+open Orb Orb.Proto Orb.Core
 
 def splitBar (ts : Toks) : List Toks :=
   let rec go (ts : Toks) (cur : Toks) (acc : List Toks) : List Toks :=
@@ -14,78 +29,425 @@ def splitBar (ts : Toks) : List Toks :=
     | t :: rest => go rest (t :: cur) acc
   go ts [] []
 
+/-- entry points documented (or evidently meant) to leave their argument alone -/
 def readOnly : List String :=
   ["clone", "equal", "bound", "planar.area", "planar.centroid", "planar.length", "planar.distfrom",
-   "geo.area", "geo.length", "geo.lengthhav", "tilecover", "wkb", "ewkb", "wkt", "geojson"]
+   "planar.distfromidx", "geo.area", "geo.length", "geo.lengthhav", "geo.lengthhaversign", "tilecover",
+   "wkb", "ewkb", "wkt", "geojson", "wkb.hex", "wkb.must", "wkb.musthex", "wkb.value", "ewkb.hex",
+   "ewkb.must", "ewkb.musthex", "ewkb.value", "ewkb.prefix", "wkt.bytes", "geojson.feature",
+   "geojson.bson", "geojson.featurebson", "mvt"]
 
-def combineOf (e : String) : String :=
-  if e == "planar.length" || e == "geo.area" || e == "geo.length" || e == "geo.lengthhav" then "sum"
-  else if e == "planar.distfrom" then "min"
-  else if e == "clone" || e == "round" || e == "project" || e.startsWith "simplify." then "map"
-  else if e == "clip" || e == "smartclip" then "mapdrop"
-  else if e == "tilecover" then "union"
-  else ""
+/-- how a collection's outcome is rebuilt from its members' outcomes.
+    `none`: entry points whose collection clause is decided elsewhere, each with its reason:
+    * `equal` here is `Equal(g, Clone g)`; collections of pairs are judged by the `eq` op;
+    * the convenience wrappers (`wkb.hex` … `wkt.bytes`, `geojson.feature`) must return exactly what
+      the encoder returns (typed clause), and the encoder carries the collection clause;
+    * `geojson.bson`, `geojson.featurebson`: the BSON document layout is C02's (round trip) — here
+      totality, ring/bound agreement and read-only;
+    * `clip.degbox`, `smartclip.degbox`: point / flat / inverted boxes, which the models' totality
+      theorems exclude (`BoxOK`) — totality only;
+    * `mvt`: a collection is NOT the combination of its members (only the first member is written,
+      finding C03-collection-members) — here totality, ring/bound agreement and read-only. -/
+def combineOf (e : String) : Option String :=
+  if e == "planar.area" || e == "planar.length" || e == "geo.area" || e == "geo.length" || e == "geo.lengthhav"
+     || e == "geo.lengthhaversign" then some "sum"
+  else if e == "planar.distfrom" then some "min"
+  else if e == "planar.distfromidx" then some "minidx"
+  else if e == "clone" || e == "round" || e == "project" || e.startsWith "simplify." then some "map"
+  else if e == "clip" then some "clip"
+  else if e == "smartclip" then some "smartclip"
+  else if e == "tilecover" then some "union"
+  else if e == "bound" then some "bound"
+  else if e == "planar.centroid" then some "centroid"
+  else if e == "wkb" || e == "ewkb" || e == "wkt" || e == "geojson" then some e
+  else none
+
+def undecidedHere : List String :=
+  ["equal", "wkb.hex", "wkb.must", "wkb.musthex", "wkb.value", "ewkb.hex", "ewkb.must", "ewkb.musthex",
+   "ewkb.value", "ewkb.prefix", "wkt.bytes", "geojson.feature", "geojson.bson", "geojson.featurebson", "mvt",
+   "clip.degbox", "smartclip.degbox"]
 
 def hexF (s : String) : Option Float := (hexToNat? s).map fun n => Float.ofBits (UInt64.ofNat n)
 
+/-- The float comparisons below are between two evaluations of the SAME Go expression tree up to the
+    order of at most a handful of additions (the generic function sums the members' values; the
+    driver re-sums the values the members returned): relative 1e-9 is many orders above the
+    reassociation error of ≤ 8 terms of like magnitude and far below any wrong combination. -/
 def closeF (a b : Float) : Bool :=
   (a.isNaN && b.isNaN) || a == b || (a - b).abs ≤ 1e-9 * (a.abs + b.abs + 1)
 
-/-- the generic outcome of a collection, rebuilt from the member outcomes -/
-def collOutcome (ms : List String) (dropNil : Bool) : String :=
-  let ms := if dropNil then ms.filter (· != "nil") else ms
-  if dropNil && ms.isEmpty then "nil"
-  else if dropNil && ms.length == 1 then ms.head!
-  else ms.foldl (fun s m => s ++ "_" ++ m) ("C_" ++ toString ms.length)
+def toF (g : Geom UInt64) : Geom Float := mapGeom Float.ofBits g
+def toFV (g : GVal UInt64) : GVal Float := mapGVal Float.ofBits g
+
+def ebF : Bound Float :=
+  ⟨⟨Float.ofInt Generated.Params.emptyBoundMinX, Float.ofInt Generated.Params.emptyBoundMinY⟩,
+   ⟨Float.ofInt Generated.Params.emptyBoundMaxX, Float.ofInt Generated.Params.emptyBoundMaxY⟩⟩
+
+/-- the harness's clip box `c20Box` -/
+def boxF : Bound Float := ⟨⟨0, 0⟩, ⟨4, 4⟩⟩
+
+/-- the value a top-level input behaves as (a typed nil: the empty value of its kind) -/
+def asGeom (v : GVal Float) : Option (Geom Float) := normV v
+
+/-- `g.Dimensions()` -/
+def dimOf (g : Geom Float) : Int := SmartClip.dimensions g
+
+/-- the bound pre-test of `clip.Geometry`: `b.Intersects(g.Bound())` -/
+def preOf (g : Geom Float) : Bool := boxF.intersects (Core.bound ebF g)
+
+partial def anyGeom (p : Geom Float → Bool) (g : Geom Float) : Bool :=
+  p g || (match g with | .collection gs => gs.any (anyGeom p) | _ => false)
+
+/-- an `orb.Bound` value with Min > Max in a coordinate ("malformed negative state", bound.go) -/
+def malformedBound (g : Geom Float) : Bool :=
+  anyGeom (fun h => match h with | .bound a b => a.x > b.x || a.y > b.y | _ => false) g
+
+partial def hasVertex : Geom Float → Bool
+  | .point _ | .bound _ _ => true
+  | .multiPoint p | .lineString p | .ring p => !p.isEmpty
+  | .multiLineString l | .polygon l => l.any (!·.isEmpty)
+  | .multiPolygon l => l.any (·.any (!·.isEmpty))
+  | .collection gs => gs.any hasVertex
+
+/-! ### wrapping rules: generic result from the kind-specific function's raw result -/
+
+/-- `X_1_<rest>` ↦ `single ++ <rest>` (a multi-geometry with one member is returned as that member) -/
+def unwrapOne (multi single t : String) : String :=
+  let pfx := multi ++ "_1_"
+  if t.startsWith pfx then single ++ (t.drop pfx.length).toString else t
+
+def boundTokEmpty (t : String) : Bool :=
+  match t.splitOn "_" with
+  | ["B", a, b, c, d] =>
+    (match hexF a, hexF b, hexF c, hexF d with
+     | some x0, some y0, some x1, some y1 => x0 > x1 || y0 > y1
+     | _, _, _, _ => false)
+  | _ => false
+
+/-- kind token of the input with the typed-nil marker removed (`nMP` ↦ `MP`) -/
+def kindTok (t : String) : String :=
+  if t == "nil" then "nil" else if t.startsWith "n" then (t.drop 1).toString else t
+
+/-- `clip.Geometry` after the pre-test, by kind (clip/helpers.go:24-102) -/
+def clipWrap (k t : String) : String :=
+  match k with
+  | "P" => t
+  | "MP" => if t == "nMP" then "nil" else unwrapOne "MP" "P_" t
+  | "LS" => if t == "nMLS" || t == "MLS_0" then "nil" else unwrapOne "MLS" "LS_" t
+  | "MLS" => if t == "nMLS" then "nil" else unwrapOne "MLS" "LS_" t
+  | "R" => if t == "nR" then "nil" else t
+  | "PG" => if t == "nPG" then "nil" else t
+  | "MPG" => if t == "nMPG" then "nil" else unwrapOne "MPG" "PG_" t
+  | "C" => if t == "nC" then "nil" else unwrapOne "C" "" t
+  | "B" => if boundTokEmpty t then "nil" else t
+  | _ => t
+
+def emptyTok (k t : String) : Bool := t == "n" ++ k || t == k ++ "_0"
+
+/-- what the generic function must return, given the kind-specific function's raw result `t`;
+    `none`: no typed clause for this entry / kind -/
+def relate (e k : String) (pre : Bool) (dim : Int) (t : String) : Option String :=
+  if e == "clip" then some (if !pre then "nil" else clipWrap k t)
+  else if e == "smartclip" then
+    if k == "R" || k == "PG" || k == "MPG" then
+      -- smart.go:26-58: the multi-polygon that comes back is nil / its single polygon / itself; no pre-test
+      some (if t == "nMPG" then "nil" else unwrapOne "MPG" "PG_" t)
+    else if k == "C" && dim == 2 then none   -- member by member: the collection clause
+    else some (if !pre then "nil" else clipWrap k t)   -- Dimensions() != 2, or a bound: plain clip.Geometry
+  else if e.startsWith "simplify." then
+    -- simplify/helpers.go:14-61: points / bounds as they are, a nil multi-point ↦ nil, every other
+    -- kind ↦ nil when the typed result has no members
+    if k == "P" || k == "B" then some t
+    else if k == "MP" then some (if t == "nMP" then "nil" else t)
+    else some (if emptyTok k t then "nil" else t)
+  else some t
+
+/-! ### collections -/
+
+def collTok (ms : List String) : String :=
+  ms.foldl (fun s m => s ++ "_" ++ m) ("C_" ++ toString ms.length)
+
+/-- nil results dropped; none left ↦ `none0`, one left ↦ that member itself, several ↦ a collection -/
+def dropWrap (none0 : String) (ms : List String) : String :=
+  match ms.filter (· != "nil") with
+  | [] => none0
+  | [m] => m
+  | l => collTok l
+
+/-- `clip.Geometry` of a collection (`clip_geometry_collection`): nil when the pre-test on the UNION
+    bound fails; otherwise the members clipped one by one, nil results dropped, a single survivor
+    returned itself, no survivor ↦ nil interface.
+    "Combination of its members" also demands that a failed pre-test loses nothing, i.e. that every
+    member then clips to nil.  That can only be false when a member is a malformed `orb.Bound`
+    (Min > Max: `Bound.Union` ignores it, `Bound.Intersects` does not, and `clip.Bound` answers the
+    box for it): bound.go calls such a value "some malformed negative state", it is not one of the
+    degenerate members the quantifier lists, so exactly that situation — and nothing else — is `skip`. -/
+def clipColl (e generic : String) (pre malformed : Bool) (ms : List String) : String :=
+  let comb := dropWrap "nil" ms
+  let expected := if pre then comb else "nil"
+  if generic != expected then s!"propfail collection-clip {e}"
+  else if !pre && comb != "nil" then
+    (if malformed then s!"skip malformed-bound-member {e}" else s!"propfail collection-pretest-loses-members {e}")
+  else if comb == "nil" then s!"ok coll-clip-none {e}"
+  else if (ms.filter (· != "nil")).length == 1 then s!"ok coll-clip-single {e}"
+  else s!"ok coll-clip {e}"
+
+/-- `smartclip.Geometry` of a collection (`smartclip_geometry_collection`): without a
+    two-dimensional member the whole collection goes to `clip.Geometry`; otherwise member by member
+    (no pre-test), nil INTERFACE results dropped (a typed nil collection is kept), a single survivor
+    returned itself, and no survivor ↦ a typed nil `orb.Collection` (not a nil interface). -/
+def smartColl (e generic : String) (dim : Int) (pre malformed : Bool) (ms : List String) : String :=
+  if dim != 2 then clipColl e generic pre malformed ms
+  else
+    let expected := dropWrap "nC" ms
+    if generic != expected then s!"propfail collection-smartclip {e}"
+    else if expected == "nC" then s!"ok coll-smart-none {e}"
+    else if (ms.filter (· != "nil")).length == 1 then s!"ok coll-smart-single {e}"
+    else s!"ok coll-smart {e}"
 
 def parseSet (s : String) : List String :=
   match s.splitOn ":" with
   | [_, body] => if body.isEmpty then [] else body.splitOn ","
   | _ => []
 
+def le32hex (n : Nat) : String :=
+  natToHex (n % 256) 2 ++ natToHex (n / 256 % 256) 2 ++ natToHex (n / 65536 % 256) 2 ++ natToHex (n / 16777216 % 256) 2
+
+/-- a stand-alone EWKB encoding with SRID ↦ the form it has as a collection member (no SRID) -/
+def stripSrid (m : String) : String :=
+  -- 01 | tt tt tt 20 | ss ss ss ss | body
+  if m.length ≥ 18 && ((m.drop 8).take 2).toString == "20" then
+    (m.take 8).toString ++ "00" ++ (m.drop 18).toString
+  else m
+
+def parse3 (s : String) : Option (Float × Float × Float) :=
+  match s.splitOn "_" with
+  | [a, b, c] => do pure (← hexF a, ← hexF b, ← hexF c)
+  | _ => none
+
+def parse4 (s : String) : Option (Float × Float × Float × Float) :=
+  match s.splitOn "_" with
+  | [a, b, c, d] => do pure (← hexF a, ← hexF b, ← hexF c, ← hexF d)
+  | _ => none
+
+def inf : Float := Float.ofBits 0x7ff0000000000000
+
+/-- `planar.CentroidArea` of a collection (`planar_centroid_collection`): the area is the sum of the
+    members' areas; with a non-zero total the centroid is the area-weighted mean of the members'
+    centroids (members of lower dimension have area 0 and drop out).  With total area 0 the code
+    answers the origin; for a collection of points / lines only that is the documented defect
+    C10-collection-lowerdim-centroid, reported here ONLY when the answer is the origin and the
+    origin lies outside the coordinate hull of the top-dimensional, non-empty members' centroids
+    (any weighted mean with non-negative weights lies inside it). -/
+def centroidColl (e generic : String) (members : List (Geom Float)) (ms : List String) : String :=
+  match parse3 generic, ms.mapM parse3 with
+  | some (gx, gy, ga), some cs =>
+    let total := cs.foldl (fun s c => s + c.2.2) 0
+    if !closeF ga total then s!"propfail collection-centroid-area {e}" else
+    if total != 0 then
+      let sx := cs.foldl (fun s c => s + c.1 * c.2.2) 0
+      let sy := cs.foldl (fun s c => s + c.2.1 * c.2.2) 0
+      if closeF gx (sx / total) && closeF gy (sy / total) then s!"ok coll-centroid {e}"
+      else s!"propfail collection-centroid {e}"
+    else
+      let dims := members.map dimOf
+      let top := dims.foldl (fun m d => if d > m then d else m) (-1)
+      if top ≥ 2 || top < 0 then s!"ok coll-centroid-zero-weight {e}" else
+      let cands := ((members.zip cs).filter fun (g, _) => dimOf g == top && hasVertex g).map (·.2)
+      match cands with
+      | [] => s!"ok coll-centroid-zero-weight {e}"
+      | c0 :: _ =>
+        let lox := cands.foldl (fun m c => if c.1 < m then c.1 else m) c0.1
+        let hix := cands.foldl (fun m c => if c.1 > m then c.1 else m) c0.1
+        let loy := cands.foldl (fun m c => if c.2.1 < m then c.2.1 else m) c0.2.1
+        let hiy := cands.foldl (fun m c => if c.2.1 > m then c.2.1 else m) c0.2.1
+        let slack := 1e-9 * (lox.abs + hix.abs + loy.abs + hiy.abs + 1)
+        if lox - slack ≤ gx && gx ≤ hix + slack && loy - slack ≤ gy && gy ≤ hiy + slack then
+          s!"ok coll-centroid-lowerdim-inhull {e}"
+        else if gx == 0 && gy == 0 then s!"propfail collection-centroid-lowerdim {e}"
+        else s!"propfail collection-centroid {e}"
+  | _, _ => "bad centroid"
+
+/-- `Collection.Bound` (`bound_collection_union`): the least box containing the members' non-empty
+    bounds; when no member has a non-empty bound, the first member's bound (the empty sentinel for
+    a collection without members). -/
+def boundColl (e generic : String) (ms : List String) : String :=
+  match parse4 generic, ms.mapM parse4 with
+  | some (a, b, c, d), some bs =>
+    let isE (q : Float × Float × Float × Float) : Bool := q.1 > q.2.2.1 || q.2.1 > q.2.2.2
+    (match bs.filter (!isE ·) with
+     | [] =>
+       (match bs with
+        | [] => if isE (a, b, c, d) then s!"ok coll-bound-empty {e}" else s!"propfail collection-bound {e}"
+        | f :: _ => if a == f.1 && b == f.2.1 && c == f.2.2.1 && d == f.2.2.2 then s!"ok coll-bound-empty {e}"
+                    else s!"propfail collection-bound {e}")
+     | f :: rest =>
+       let lo0 := rest.foldl (fun m q => if q.1 < m then q.1 else m) f.1
+       let lo1 := rest.foldl (fun m q => if q.2.1 < m then q.2.1 else m) f.2.1
+       let hi0 := rest.foldl (fun m q => if q.2.2.1 > m then q.2.2.1 else m) f.2.2.1
+       let hi1 := rest.foldl (fun m q => if q.2.2.2 > m then q.2.2.2 else m) f.2.2.2
+       if a == lo0 && b == lo1 && c == hi0 && d == hi1 then s!"ok coll-bound {e}" else s!"propfail collection-bound {e}")
+  | _, _ => "bad bound"
+
+/-- does the geometry-valued outcome hold a nil INTERFACE as a member (at any depth)?  Such a value
+    is outside the set of values every generic entry point accepts (`Collection.Dimensions`,
+    `planar.Area`, … dereference it; WKT prints `GEOMETRYCOLLECTION(,…)`). -/
+def hasNilMember (generic : String) : Bool :=
+  generic != "nil" && (generic.splitOn "_").contains "nil"
+
+/-- mvt: the value handed to `encodeGeometry` (the feature's geometry, or the FIRST member of a
+    collection) has a line / ring without vertices — `g[0]`, `ls[0]`, `r[0]` in mvt/geometry.go -/
+def mvtEmptyLine (v : GVal Float) : Bool :=
+  let one (g : Geom Float) : Bool :=
+    match g with
+    | .lineString p | .ring p => p.isEmpty
+    | .multiLineString l | .polygon l => l.any (·.isEmpty)
+    | .multiPolygon l => l.any (·.any (·.isEmpty))
+    | _ => false
+  match asGeom v with
+  | some (.collection (g :: _)) => one g
+  | some g => one g
+  | none => false
+
+def geomEntry (e : String) : Bool :=
+  e == "clone" || e == "round" || e == "project" || e.startsWith "simplify." || e == "clip" || e == "smartclip"
+
 def handleCall (inp out : Toks) : String :=
   match inp with
   | [] => "bad input"
   | e :: gtoks =>
+    match gval gtoks with
+    | none => "bad geometry"
+    | some (vU, _) =>
+    let v := toFV vU
+    let k := kindTok (gtoks.headD "nil")
+    let g? := asGeom v
+    let pre := (g?.map preOf).getD false
+    let dim := (g?.map dimOf).getD (-1)
+    let malformed := (g?.map malformedBound).getD false
     match splitBar out with
     | [[generic], [typed], [unch], kparts] =>
-      if generic == "panic" then s!"propfail panic {e}" else
+      if generic == "panic" then
+        (if e == "mvt" && mvtEmptyLine v then s!"propfail panic-empty-line {e}" else s!"propfail panic {e}") else
       if typed == "panic" then s!"propfail panic-typed {e}" else
-      -- generic entry points that drop empty results return a nil interface where the typed
-      -- function returns an empty / typed-nil slice of its kind: the same (empty) value
-      let emptyish (t : String) : Bool :=
-        ["nil", "nMP", "nLS", "nMLS", "nR", "nPG", "nMPG", "nC", "MP_0", "LS_0", "MLS_0", "R_0", "PG_0", "MPG_0", "C_0"].contains t
-      let dropsEmpty := e.startsWith "simplify." || e == "clip" || e == "smartclip"
-      if typed != "-" && typed != generic && !(dropsEmpty && generic == "nil" && emptyish typed) then s!"propfail typed-disagrees {e}" else
+      let typedOk : Bool :=
+        if typed == "-" then true else
+        match relate e k pre dim typed with
+        | some want => generic == want
+        | none => true
+      if !typedOk then s!"propfail typed-disagrees {e}" else
       if readOnly.contains e && unch != "1" then s!"propfail argument-modified {e}" else
-      (match kparts with
-       | ["-1"] => (if gtoks.head? == some "nil" || (gtoks.head?.map (·.startsWith "n")).getD false then "ok nilval " ++ e else "ok " ++ e)
-       | _ :: ms =>
-         if ms.any (· == "panic") then s!"propfail panic-member {e}" else
-         (match combineOf e with
-          | "sum" =>
-            (match hexF generic, ms.mapM hexF with
-             | some g, some fs => if closeF g (fs.foldl (· + ·) 0) then "ok coll-sum " ++ e else s!"propfail collection-sum {e}"
-             | _, _ => "bad sum")
-          | "min" =>
-            (match hexF generic, ms.mapM hexF with
-             | some g, some fs =>
-               let m := fs.foldl (fun a b => if b < a then b else a) (Float.ofBits 0x7ff0000000000000)
-               if closeF g m then "ok coll-min " ++ e else s!"propfail collection-min {e}"
-             | _, _ => "bad min")
-          | "map" =>
-            if generic == collOutcome ms false then "ok coll-map " ++ e
-            else if (e.startsWith "simplify.") && ms.isEmpty && generic == "nil" then "ok coll-map-empty " ++ e
-            else s!"propfail collection-map {e}"
-          | "mapdrop" => if generic == collOutcome ms true then "ok coll-mapdrop " ++ e else s!"skip collection-mapdrop {e}"
-          | "union" =>
-            -- tilecover.Collection returns the first member's error
-            if ms.any (· == "err") then (if generic == "err" then "ok coll-union-err " ++ e else s!"propfail collection-union {e}") else
-            let u := (ms.flatMap parseSet).eraseDups.mergeSort (· ≤ ·)
-            if (parseSet generic).mergeSort (· ≤ ·) == u then "ok coll-union " ++ e else s!"propfail collection-union {e}"
-          | _ => "ok coll " ++ e)
-       | _ => "bad members")
+      let verdict : String :=
+        match kparts with
+        | ["-1"] => (if k == "nil" || (gtoks.headD "").startsWith "n" then "ok nilval " ++ e else "ok " ++ e)
+        | kt :: ms =>
+          if kt.toNat? != some ms.length then "bad member-count" else
+          if ms.any (· == "panic") then
+            (if e == "mvt" then s!"ok coll-member-panics-alone {e}" else s!"propfail panic-member {e}") else
+          (match combineOf e with
+           | some "sum" =>
+             (match hexF generic, ms.mapM hexF with
+              | some g, some fs => if closeF g (fs.foldl (· + ·) 0) then "ok coll-sum " ++ e else s!"propfail collection-sum {e}"
+              | _, _ => "bad sum")
+           | some "min" =>
+             (match hexF generic, ms.mapM hexF with
+              | some g, some fs =>
+                let m := fs.foldl (fun a b => if b < a then b else a) inf
+                if g == m then "ok coll-min " ++ e else s!"propfail collection-min {e}"
+              | _, _ => "bad min")
+           | some "minidx" =>
+             -- the loop of planar/distance_from.go:87-96: strictly closer members replace the answer
+             (match generic.splitOn "_", ms.mapM (fun m => (m.splitOn "_").head?.bind hexF) with
+              | [gd, gi], some fs =>
+                let (m, i, _) := fs.foldl (fun (acc : Float × Int × Int) d =>
+                  if d < acc.1 then (d, acc.2.2, acc.2.2 + 1) else (acc.1, acc.2.1, acc.2.2 + 1)) (inf, -1, 0)
+                (match hexF gd, gi.toInt? with
+                 | some g, some gi => if g == m && gi == i then "ok coll-minidx " ++ e else s!"propfail collection-minidx {e}"
+                 | _, _ => "bad minidx")
+              | _, _ => "bad minidx")
+           | some "map" =>
+             if e.startsWith "simplify." then
+               -- a member that simplifies to nothing (nil) leaves no geometry behind: the combination
+               -- of the members is the collection of those that are left, nil when none is
+               -- (`simplify` answers nil for every empty result).  The code as it is keeps such a
+               -- member as a nil INTERFACE entry (`simplify_collection`): reported as exactly that.
+               let surv := ms.filter (· != "nil")
+               let want := if surv.isEmpty then "nil" else collTok surv
+               if generic == want then (if surv.length == ms.length then "ok coll-map " ++ e else "ok coll-map-dropped " ++ e)
+               else if generic == collTok ms then s!"propfail result-nil-member {e}"
+               else s!"propfail collection-map {e}"
+             else if generic == collTok ms then "ok coll-map " ++ e
+             else s!"propfail collection-map {e}"
+           | some "clip" => clipColl e generic pre malformed ms
+           | some "smartclip" => smartColl e generic dim pre malformed ms
+           | some "union" =>
+             -- tilecover.Collection returns the first member's error
+             if ms.any (· == "err") then (if generic == "err" then "ok coll-union-err " ++ e else s!"propfail collection-union {e}") else
+             let u := (ms.flatMap parseSet).eraseDups.mergeSort (· ≤ ·)
+             if (parseSet generic).mergeSort (· ≤ ·) == u then "ok coll-union " ++ e else s!"propfail collection-union {e}"
+           | some "bound" => boundColl e generic ms
+           | some "centroid" =>
+             (match g? with
+              | some (.collection gs) => centroidColl e generic gs ms
+              | _ => "bad centroid input")
+           | some "wkb" =>
+             if generic == "0107000000" ++ le32hex ms.length ++ String.join ms then "ok coll-concat " ++ e
+             else s!"propfail collection-concat {e}"
+           | some "ewkb" =>
+             if generic == "0107000020e6100000" ++ le32hex ms.length ++ String.join (ms.map stripSrid) then "ok coll-concat " ++ e
+             else s!"propfail collection-concat {e}"
+           | some "wkt" =>
+             let want := if ms.isEmpty then "GEOMETRYCOLLECTION_EMPTY" else "GEOMETRYCOLLECTION(" ++ ",".intercalate ms ++ ")"
+             if generic == want then "ok coll-concat " ++ e else s!"propfail collection-concat {e}"
+           | some "geojson" =>
+             -- a collection without members is written `null` (C02-empty-collection-…, C02-nested-empty-collection)
+             let want := if ms.isEmpty then "null"
+               else "{\"type\":\"GeometryCollection\",\"geometries\":[" ++ ",".intercalate ms ++ "]}"
+             if generic == want then "ok coll-concat " ++ e else s!"propfail collection-concat {e}"
+           | some c => "bad combine " ++ c
+           | none => if undecidedHere.contains e then "ok coll-elsewhere " ++ e else "bad entry " ++ e)
+        | _ => "bad members"
+      -- a result holding a nil interface member: reported only when every other clause holds, so the
+      -- label never absorbs a different failure
+      if verdict.startsWith "ok" && geomEntry e && hasNilMember generic && !(gtoks.contains "nil") then
+        s!"propfail result-nil-member {e}"
+      else verdict
     | _ => if out == ["panic"] then "propfail panic harness" else "bad output"
+
+def kindOfV : GVal Float → Option Kind
+  | .nilIface => none
+  | .nilSlice k => some k
+  | .val g => some g.kind
+
+/-- `eq <g1> <g2> => Equal(g1,g2) Equal(g2,g1) typed unchanged` -/
+def handleEq (inp out : Toks) : String :=
+  match gval inp with
+  | none => "bad input"
+  | some (aU, rest) =>
+    match gval rest with
+    | none => "bad input2"
+    | some (bU, _) =>
+      let a := toFV aU
+      let b := toFV bU
+      match out with
+      | [g1, g2, ty, unch] =>
+        if g1 == "panic" || g2 == "panic" then "propfail panic equal" else
+        if ty == "panic" then "propfail panic-typed equal" else
+        let ka := kindOfV a
+        let kb := kindOfV b
+        let model := if equalV a b then "1" else "0"
+        let fin (s : String) : String := if s.startsWith "propfail" || model == g1 then s else "diff " ++ model
+        fin <|
+        if g1 != g2 then "propfail equal-asymmetric" else
+        if ka != kb && g1 != "0" then "propfail equal-cross-kind" else
+        if ka == none && kb == none && g1 != "1" then "propfail equal-nil-nil" else
+        if ka == kb && ka != none && ty == "-" then "bad typed-arm-missing" else
+        if ty != "-" && ty != g1 then "propfail typed-disagrees equal" else
+        if unch != "1" then "propfail argument-modified equal" else
+        if ka == none || kb == none then s!"ok eq-nil {g1}"
+        else if ka != kb then "ok eq-cross-kind 0"
+        else s!"ok eq-same-kind {g1}"
+      | _ => if out == ["panic"] then "propfail panic harness" else "bad output"
 
 def handle (ts : Toks) : String :=
   match ts with
@@ -93,6 +455,7 @@ def handle (ts : Toks) : String :=
     let (inp, out) := splitArrow rest
     match op with
     | "call" => handleCall inp out
+    | "eq" => handleEq inp out
     | _ => "bad op " ++ op
   | [] => "bad empty"
 
